@@ -164,6 +164,9 @@ def synthetic(rng, wild=False):
     # transitions one day apart (within the spacing assumption)
     Z.append(('close-transitions', W([ts(2000, 1, 1), ts(2000, 1, 2), ts(2000, 1, 3, 12)], [1, 0, 1],
                                      [(0, False, 'AAA'), (3600, True, 'BBB')])))
+    # abbreviations stored as suffixes of longer ones (zic shares them: America/Adak has HST inside AHST)
+    Z.append(('suffix-shared-abbreviations', W([ts(1967, 4, 30, 12), ts(1967, 10, 29, 11), ts(1983, 10, 30, 12), ts(1984, 4, 29, 12), ts(1984, 10, 28, 11)],
+                                               [1, 0, 2, 3, 2], [(-39600, False, 'BAHST'), (-36000, True, 'AHDT'), (-36000, False, 'HST'), (-32400, True, 'HDT')])))
     # more than 128 local time types (the type index is an unsigned byte: 0..255)
     many = [(60 * (i - 100), bool(i % 5 == 3), 'A%02d' % (i % 40)) for i in range(200)]      # abbreviation offsets are bytes too
     Z.append(('many-types', W([ts(1970, 1, 1) + 30 * 86400 * (i + 1) for i in range(199)], list(range(1, 200)), many)))
